@@ -102,6 +102,18 @@ void Library::top_level(Array<Cell*>& top_cells, Array<RawCell*>& top_rawcells) 
         Cell* cell = *c_item;
         cell->get_dependencies(false, cell_deps);
         cell->get_raw_dependencies(false, rawcell_deps);
+        // References by name designate the cell or rawcell with that name in this library
+        Reference** ref = cell->reference_array.items;
+        for (uint64_t j = 0; j < cell->reference_array.count; j++, ref++) {
+            if ((*ref)->type != ReferenceType::Name) continue;
+            Cell* named_cell = get_cell((*ref)->name);
+            if (named_cell) {
+                cell_deps.set(named_cell->name, named_cell);
+            } else {
+                RawCell* named_rawcell = get_rawcell((*ref)->name);
+                if (named_rawcell) rawcell_deps.set(named_rawcell->name, named_rawcell);
+            }
+        }
     }
 
     RawCell** r_item = rawcell_array.items;
